@@ -188,3 +188,85 @@ def cases_for(src, block, cfg, rnd, tier):
             if rnd.random() < 0.5:
                 mk(d, rnd.randrange(L + 1, d + 2), dict(kind='port', level=L, dir=dr, read=rd))
     return out
+
+
+# ------------------------------------------------------------------------------------------------ histories
+# One live hierarchy is checked repeatedly while drivers are removed and re-attached in between: the verdict of every
+# check must follow the plan's driver table at that moment, whatever was checked before in the same process.
+
+def history_cases_for(src, block, cfg, rnd, tier):
+    seq, in_names, out_names = probe(src, block, cfg)
+    ni = len(in_names)
+    if ni == 0:
+        return []
+    out = []
+    depths = [0, 1, 3] if tier == 'quick' else [0, 1, 2, 3, 5]
+    for variant in ('complete_first', 'faulty_first'):
+        d = rnd.choice(depths)
+        node = lambda: rnd.randrange(1, d + 2)          # never the top level: detached driver blocks stay there
+        k = rnd.randrange(ni)
+        if variant == 'complete_first':
+            c = node()
+            steps = [['check', node()], ['disc', k], ['check', c], ['check', c], ['check', node()], ['attach', k], ['check', node()]]
+            if rnd.random() < 0.5:
+                steps += [['disc', k], ['check', node()], ['attach', k], ['check', node()]]
+            omit = None
+        else:
+            c = node()
+            steps = [['check', c], ['check', c], ['attach', k], ['check', node()], ['check', c], ['disc', k], ['check', node()]]
+            omit = k
+        out.append(dict(monitor='integrity_history', src=src, block=block, cfg=cfg, depth=d, check_at=0,
+                        drv=[rnd.choice(['const', 'seq']) for _ in range(max(1, min(ni, 4)))], readers=rnd.random() < 0.5,
+                        fault=dict(kind='omit', k=omit) if omit is not None else None, steps=steps))
+    return out
+
+
+def run_history(case):
+    import py4hw
+    import py4hw.debug
+    res = dict(outcome='ok', checks=[], step=None)
+    with muted():
+        base = dict(case)
+        chain, info = build_case(base)
+        hw = chain[0]
+        seq, in_names, out_names = probe(case['src'], case['block'], tup(case['cfg']))
+        ins = [hw._wires['n_' + n] for n in in_names]
+        f = case.get('fault') or {}
+        driven = [not (f.get('kind') == 'omit' and f['k'] == k) for k in range(len(ins))]
+        cur = dict((k, hw.children.get('drv%d' % k)) for k in range(len(ins)))
+        phase = 'initial'
+        n_att = 0
+        for i, (what, arg) in enumerate(case['steps']):
+            if what == 'disc':
+                py4hw.disconnectWireFromLogicObject(ins[arg], cur[arg])
+                driven[arg] = False
+                phase = 'after_disconnect'
+            elif what == 'attach':
+                n_att += 1
+                cur[arg] = py4hw.Constant(hw, 'redrv%d_%d' % (arg, n_att), 1, ins[arg])
+                driven[arg] = True
+                phase = 'after_reattach'
+            else:
+                node = chain[arg]
+                exp = not all(driven)
+                acc = walk(node, dict(undriven=0, not_attached=0, where=[]))
+                raised = None
+                try:
+                    py4hw.debug.checkIntegrity(node)
+                except Exception as e:      # noqa
+                    raised = e
+                res['checks'].append([phase, exp, None if raised is None else type(raised).__name__])
+                if (acc['undriven'] > 0) != exp:
+                    res.update(outcome='library_internal' if (i == 0 or all(driven)) and acc['undriven'] and not exp else 'harness_mismatch',
+                               step=i, where=acc['where'][:2])
+                    break
+                if exp and raised is None:
+                    res.update(outcome='missed', step=i, phase=phase)
+                    break
+                if not exp and raised is not None:
+                    res.update(outcome='false_alarm', step=i, phase=phase, raised=type(raised).__name__, msg=str(raised)[:160])
+                    break
+                if phase in ('after_disconnect', 'after_reattach', 'initial'):
+                    phase = 'repeat_' + phase
+    res['info'] = info
+    return res
